@@ -342,18 +342,14 @@ func (c *ProcCase) Main() {
 		defer close(ansDone)
 		var pending []pendingReq
 		answers := map[string]int{}
-		for {
-			if len(pending) == 0 {
-				idle.Set(1)
-				select {
-				case r := <-reqs:
-					idle.Set(0)
-					pending = append(pending, r)
-				case <-stop:
-					return
-				}
+		// events delivered by this coordinator, one at a time, only at moments when the engine is quiescent
+		var quiet []EvPlan
+		for _, ep := range c.Events {
+			if !ep.Own {
+				quiet = append(quiet, ep)
 			}
-			// take whatever else is already there
+		}
+		drain := func() {
 			for more := true; more; {
 				select {
 				case r := <-reqs:
@@ -362,7 +358,21 @@ func (c *ProcCase) Main() {
 					more = false
 				}
 			}
-			hold := c.Hold == 2 || (c.Hold == 1 && env.pick(2) == 1)
+		}
+		for {
+			drain()
+			if len(pending) == 0 && len(quiet) == 0 {
+				idle.Set(1)
+				select {
+				case r := <-reqs:
+					idle.Set(0)
+					pending = append(pending, r)
+				case <-stop:
+					return
+				}
+				drain()
+			}
+			hold := len(quiet) > 0 || c.Hold == 2 || (c.Hold == 1 && env.pick(2) == 1)
 			if hold {
 				// a fake-time timer fires only when every goroutine is blocked: the engine has quiesced
 				select {
@@ -370,13 +380,20 @@ func (c *ProcCase) Main() {
 				case <-stop:
 					return
 				}
-				for more := true; more; {
-					select {
-					case r := <-reqs:
-						pending = append(pending, r)
-					default:
-						more = false
+				drain()
+			}
+			if len(quiet) > 0 {
+				// choose between delivering the next event and answering a pending request
+				opt := env.pick(len(pending) + 1)
+				if len(pending) == 0 || opt == len(pending) {
+					ep := quiet[0]
+					quiet = quiet[1:]
+					L.Add("ev", ep.Kind, ep.Ref, 0)
+					if _, err := proc.ConsumeEvent(mkEvent(ep.Kind, ep.Ref)); err != nil {
+						L.Add("ev-err", ep.Kind, err.Error(), 0)
 					}
+					L.Add("ev-ret", ep.Kind, ep.Ref, 0)
+					continue
 				}
 			}
 			i := env.pick(len(pending))
@@ -514,10 +531,27 @@ func (c *ProcCase) Main() {
 		}
 	}()
 
-	// events
-	for _, ep := range c.Events {
-		ep := ep
-		_ = ep
+	// events delivered from their own goroutines as soon as a given number of traces has been observed
+	for ei, ep := range c.Events {
+		if !ep.Own {
+			continue
+		}
+		ei, ep := ei, ep
+		go func() {
+			// (bounded: if the instance comes to rest before that many traces were seen, deliver anyway)
+			for polls := 0; int(ntraces.Get()) < ep.After && polls < 40; polls++ {
+				select {
+				case <-time.After(time.Millisecond):
+				case <-stop:
+					return
+				}
+			}
+			L.AddG(ei, "rev", ep.Kind, ep.Ref, 0)
+			if _, err := proc.ConsumeEvent(mkEvent(ep.Kind, ep.Ref)); err != nil {
+				L.AddG(ei, "ev-err", ep.Kind, err.Error(), 0)
+			}
+			L.AddG(ei, "rev-ret", ep.Kind, ep.Ref, 0)
+		}()
 	}
 
 	startIDs := c.StartOnly
